@@ -279,7 +279,7 @@ fn swaps<T: Tier, M: MatN<T, N>, const N: usize>(rep: &mut Report) {
 }
 
 fn closure<T: Tier, M: MatN<T, N> + InvT<T>, const N: usize>(rep: &mut Report) {
-    let depth = rep.pick(2, 3);
+    let depth = rep.pick(2, 4);
     // generators with small integer entries: unimodular-ish, shear, permutation with scale, singular
     let mut g0 = lower_m::<T, N>(model::mident());
     for c in 0..N {
